@@ -61,6 +61,9 @@ fn judge(run: &ScriptRun, horizon_ok: bool, strict_horizon: bool, out: &mut Vec<
                     // the count is judged when the object has left the sender (is_added false at the end);
                     // in the controlled grid (ample horizon) it must have left
                     let gone = last.and_then(|s| s.per_obj.iter().find(|x| x.0 == i).map(|x| !x.2)).unwrap_or(false);
+                    if horizon_ok && strict_horizon && transfers.is_empty() && obj.start_ms.is_none() && (!run.spec.full_fdt || run.ops.iter().any(|o| o.op == Op::Publish && o.ok)) {
+                        out.push(f(Violation::new("never_transmitted", format!("toi {}: accepted, published, never removed, no start time - but not a single transfer started over the whole horizon; is_added at the end: {}", toi, !gone))).witness(wit(json!({"obj": i}))));
+                    }
                     if horizon_ok && !gone && !transfers.is_empty() && strict_horizon {
                         out.push(f(Violation::new("never_finishes", format!("toi {}: still in the sender after the whole horizon ({} of {} transfers complete)", toi, n_complete, obj.max_transfer_count))).witness(wit(json!({"obj": i}))));
                     }
@@ -266,6 +269,55 @@ fn main() {
             opts.max_packets = 3000;
             let mut cr = CaseResult::default();
             run_case(&spec, &[o], &script, &opts, &format!("g{}", i), true, &mut cr);
+            cr
+        }));
+        // ---- ObjectsBeingTransferred mode with a session OTI that cannot carry every FDT size (Raptor: an FDT of
+        //      2-3 symbols cannot be encoded): the automatic publish of an object starting while others are on the
+        //      wire fails, its start is cancelled and must be retried - every object is still transmitted exactly
+        //      its configured number of times and leaves the sender
+        let n_tp = ctx.tier.pick(600usize, 12_000);
+        gens.push(Gen::new("transient_publish_failure", n_tp, move |ctx, i| {
+            let mut rng = Rng::keyed(ctx.seed, "C12t", 0, i as u64);
+            let nobj = rng.range(2, 4) as usize;
+            let obj_oti = OtiSpec::new(Fec::NoCode, 64, 8, 0);
+            let mut objs = vec![];
+            let mut script = vec![];
+            for k in 0..nobj {
+                let len = rng.range(100, 900) as usize;
+                let mut o = ObjSpec::new(gen_bytes(&mut rng, len), &format!("file:///transient-publish-failure/object-number-{}.bin", k));
+                o.oti = Some(obj_oti.clone());
+                o.max_transfer_count = rng.range(1, 2) as u32;
+                objs.push(o);
+                script.push((When::Start, Op::Add(k)));
+            }
+            // size of an FDT instance listing ONE of these objects (measured on a No-Code probe session): the symbol
+            // size is chosen so that such an instance is one symbol (always encodable) while instances listing two or
+            // three objects are 2-3 symbols, which Raptor cannot encode
+            let mut probe = SenderSpec::new(OtiSpec::new(Fec::NoCode, 8192, 8, 0));
+            probe.full_fdt = false;
+            let l1 = match util::guarded(|| emit(&probe, &objs[..1], &EmitOpts::default())) {
+                Ok(Ok(em)) => em.stream.iter().filter(|p| p.toi() == 0).filter_map(|p| p.dec.fti.as_ref().map(|f| f.l)).max().unwrap_or(0),
+                _ => 0,
+            };
+            let mut cr = CaseResult::default();
+            if l1 == 0 || l1 > 3000 {
+                cr.inconclusive = Some("probe session gave no FDT".into());
+                return cr;
+            }
+            let e = (((l1 + [24u64, 100, 300][i % 3]) + 3) / 4 * 4) as u16;
+            let mut fdt_oti = OtiSpec::new(Fec::Raptor, e, 64, 1);
+            fdt_oti.al = 4;
+            let mut spec = SenderSpec::new(fdt_oti);
+            spec.full_fdt = false;
+            spec.fdt_carousel = CarouselSpec::DelayMs(2000);
+            spec.queues = vec![(0, rng.range(2, 3) as u32)];
+            let mut opts = ScriptOpts::every(100, 300);
+            opts.stop_when_empty = true;
+            opts.max_packets = 6000;
+            run_case(&spec, &objs, &script, &opts, &format!("tp{}|{}|{}", e, nobj, spec.queues[0].1), true, &mut cr);
+            for v in cr.violations.iter_mut() {
+                v.sig.insert("transient_publish_failure".into(), json!(true));
+            }
             cr
         }));
         // ---- random scripts
